@@ -135,6 +135,8 @@ def exec_case(ctx, r):
     for a, b in zip(edges[:-1], edges[1:]):
         ctx.stat("segments_checked")
         v = stat(X[a:b, 0])
+        if v != v:
+            ctx.stat("segments_with_nan_statistic")  # neither below nor above: must not be flagged
         f = bool(v < lo or v > hi)
         flags.append(f)
         if f:
